@@ -131,7 +131,19 @@ def gen_spec(rng, can_chmod):
     for d in rng.sample(lib_dirs, rng.choice([1, 2, 3])):
         loc = d + "/" + BIN_NAME
         occupied.add(loc)
-        data = rng.choice(BIN_SAMPLES) if rng.random() < 0.7 else bytes(rng.randrange(256) for _ in range(rng.randrange(1, 12)))
+        r0 = rng.random()
+        if r0 < 0.15:
+            # long content with a multi-byte character (or a truncated one) astride a typical read-buffer boundary:
+            # importstr must still be the lossy decoding of the WHOLE file, importbin its exact bytes
+            bound = rng.choice([4096, 8192, 8192, 16384])
+            ch = rng.choice(["é", "€", "😀", "é€😀"]).encode("utf-8")
+            off = rng.randrange(1, len(ch)) if rng.random() < 0.8 else 0
+            tail = rng.choice([b"", b"z", ch, b"\xe2\x82"])
+            data = b"a" * (bound - off) + ch + b"b" * rng.choice([0, 1, 5000]) + tail
+        elif r0 < 0.75:
+            data = rng.choice(BIN_SAMPLES)
+        else:
+            data = bytes(rng.randrange(256) for _ in range(rng.randrange(1, 12)))
         spec["files"][loc] = {"kind": "bin", "hex": data.hex()}
     # special entries
     if rng.random() < 0.5:
